@@ -551,6 +551,13 @@ def family_c12(tier, seed):
             out.append(gram.mk('cmd', S(Sub(L('--o='), A(*[L(v) for v in vs])), L('x'))))
             if tier != 'quick' or n == 2:
                 out.append(gram.mk('cmd', S(Sub(L('p'), A(*[L(v) for v in reversed(vs)])), Opt(L('x')), L('y'))))
+    # two alternations in one word: a short value allowed in the first and again in the second next to a longer one
+    firsts = [('a', 'b'), ('1', '2')]
+    seconds = {('a', 'b'): [('a', 'abc'), ('a', 'ab', 'b'), ('b', 'ba')], ('1', '2'): [('1', '10', '100'), ('2', '21')]}
+    for f in firsts:
+        for sec in seconds[f][:(2 if tier == 'quick' else 3)]:
+            out.append(gram.mk('cmd', S(Sub(L('--r='), A(*[L(v) for v in f]), L(','), A(*[L(v) for v in sec])), A(L('x'), L('y')))))
+            out.append(gram.mk('cmd', S(Sub(L('--r='), A(*[L(v) for v in sec]), L(','), A(*[L(v) for v in f])), L('x'))))
     return [('prefix-chain value sets', out)]
 
 
@@ -644,7 +651,7 @@ def run_e2(prop, tier, seed, families, K, configs, allow_regions=(), max_paths=6
         'excluded_by_region_query': regions,
         'slowest_programs': sorted(((r.get('elapsed_s', 0), r['text']) for r in results), reverse=True)[:5],
         'programs_not_explored_to_the_end_within_budget': over_budget,
-        'bounds': {'complete_words_K': '0..%d (families tagged K=3: 0..3)' % K, 'word_length_L': '<= longest vocabulary item + 1 (max seen %s)' % bounds.get('max_L'),
+        'bounds': {'complete_words_K': '0..%d (families tagged K=3: 0..3)' % K, 'word_length_L': '<= 1 + the longest of: vocabulary items, command candidates, loop-free words of every within-word expression; capped at 12 (max seen %s)' % bounds.get('max_L'),
                    'alphabet': 'characters of the vocabulary and command outputs plus z = : (no glob metacharacters)',
                    'COMP_WORDBREAKS': configs},
         'paths': paths,
@@ -773,34 +780,42 @@ def check_C07(tier, seed):
     mir = mirsym.dump_mir()
     cgvp = common.Cgv()
     shells = ('bash', 'fish', 'zsh', 'pwsh')
-    texts = {sh: mirsym.function_text(mir, '%s::make_string_constant' % sh) for sh in shells}
-    nvalid = e1.validate_translator(cgvp, texts, seed)
     e1_rows = []
     e1_viol = []
+    e1_inconclusive = []
     models = set()
+    nvalid = 0
     for sh in shells:
-        for n in range(1, N + 1) if tier != 'quick' else (N,):
-            holds, cex, ms, ncells = e1.solve_kernel(texts[sh], sh, n, stats)
-            models |= set(ms)
-            e1_rows.append({'function': '%s::make_string_constant' % sh, 'max_bytes': n, 'holds': holds, 'cells': ncells,
-                            'counterexample': cex})
-            if not holds:
-                const = cgvp.strconst(cex)[sh]
-                why = e1.violates(sh, cex, const)
-                if why is None:
-                    raise Inconclusive('E1 counterexample %r for %s does not reproduce on the real function (constant %r)' % (cex, sh, const))
-                small = e1.minimise(cgvp, sh, sh, cex)
-                const = cgvp.strconst(small)[sh]
-                why = e1.violates(sh, small, const)
-                payload = {'shell': sh, 'string': small, 'constant': const, 'why': why, 'solver_string': cex}
-                if sh == 'bash':
-                    rc, out, err = e1.bash_eval(const)
-                    payload['bash_eval'] = {'rc': rc, 'stdout': out.decode(errors='replace'), 'stderr': err}
-                    if rc == 0 and out == small.encode():
-                        raise Inconclusive('reader model for bash disagrees with the real bash on %r' % const)
-                e1_viol.append(('%s:%s:%s' % (sh, why, ''.join(sorted(set(c for c in small if not c.isalnum())))),
-                                '%s::make_string_constant(%r) = %s which the %s reader sees as %s' % (sh, small, const, sh, why), payload))
-                break
+        try:
+            text_sh = mirsym.function_text(mir, '%s::make_string_constant' % sh)
+            nvalid += e1.validate_translator(cgvp, {sh: text_sh}, seed)
+            for n in range(1, N + 1) if tier != 'quick' else (N,):
+                holds, cex, ms, ncells = e1.solve_kernel(text_sh, sh, n, stats)
+                models |= set(ms)
+                e1_rows.append({'function': '%s::make_string_constant' % sh, 'max_bytes': n, 'holds': holds, 'cells': ncells,
+                                'counterexample': cex})
+                if not holds:
+                    const = cgvp.strconst(cex)[sh]
+                    why = e1.violates(sh, cex, const)
+                    if why is None:
+                        raise Inconclusive('E1 counterexample %r for %s does not reproduce on the real function (constant %r)' % (cex, sh, const))
+                    small = e1.minimise(cgvp, sh, sh, cex)
+                    const = cgvp.strconst(small)[sh]
+                    why = e1.violates(sh, small, const)
+                    payload = {'shell': sh, 'string': small, 'constant': const, 'why': why, 'solver_string': cex}
+                    if sh == 'bash':
+                        rc, out, err = e1.bash_eval(const)
+                        payload['bash_eval'] = {'rc': rc, 'stdout': out.decode(errors='replace'), 'stderr': err}
+                        if rc == 0 and out == small.encode():
+                            raise Inconclusive('reader model for bash disagrees with the real bash on %r' % const)
+                    e1_viol.append(('%s:%s:%s' % (sh, why, ''.join(sorted(set(c for c in small if not c.isalnum())))),
+                                    '%s::make_string_constant(%r) = %s which the %s reader sees as %s' % (sh, small, const, sh, why), payload))
+                    break
+        except Inconclusive as e:
+            # the kernel has a shape the MIR interpreter does not know (or drifted): no E1 verdict for this shell --
+            # reported as inconclusive, but the bash half below still runs and may find a violation by execution
+            e1_inconclusive.append('E1 %s::make_string_constant: %s' % (sh, e))
+            e1_rows.append({'function': '%s::make_string_constant' % sh, 'holds': None, 'inconclusive': str(e)})
     cgvp.close()
     # bash half by execution
     rep = run_e2('C07', tier, seed, family_c07(tier, seed), K=1, configs=[e2.DEFAULT_WB],
@@ -811,6 +826,7 @@ def check_C07(tier, seed):
     rep.violations = kept
     for (k, w, p) in e1_viol:
         rep.violation(k, w, p)
+    rep.inconclusive += e1_inconclusive
     rep.coverage['e1'] = {
         'functions_encoded': ['%s::make_string_constant' % sh for sh in shells],
         'bound': 'all ASCII strings (bytes 1..127) of up to %d bytes' % N,
